@@ -17,7 +17,7 @@ import (
 type c14Inject struct {
 	commitIdx  int
 	k          int  // 1-based position of the failing ledger write/delete in the first attempt
-	k2         int  // position failing in the first retry (0 = retry succeeds)
+	ks         []int // positions failing in the successive retries (empty = first retry succeeds)
 	apply      bool // the failing call takes effect although it reports failure
 	retryLater bool // do not retry immediately: continue the history and commit later
 }
@@ -180,15 +180,19 @@ func c14Run(plan *c14Plan, inj *c14Inject, twin *c14Out) (*c14Out, error) {
 			out.snaps = append(out.snaps, nil)
 			return nil
 		}
-		if inj.k2 > 0 {
+		for ri, kn := range inj.ks {
 			pendingBefore, _ = atree.VerifStorageLayers(w.ps)
-			if err := attempt(inj.k2); err != nil {
+			if err := attempt(kn); err != nil {
 				if _, ok := err.(*Violation); ok {
 					return err
 				}
-				// fewer writes left than k2: the retry succeeded
-			} else {
+				// fewer writes left than kn: this retry succeeded
+				break
+			}
+			if ri == 0 {
 				out.stats["double-faults"]++
+			} else {
+				out.stats["triple-faults"]++
 			}
 		}
 		// retry until success
@@ -299,18 +303,26 @@ func runC14(c *CaseCtx) *CaseResult {
 		if W <= 12 {
 			for k := 1; k <= W; k++ {
 				for k2 := 1; k2 <= W-k+1; k2++ {
-					inj := &c14Inject{commitIdx: j, k: k, k2: k2}
-					out, err := c14Run(plan, inj, twin)
-					evals++
-					for kk, v := range out.stats {
-						res.Obs[kk] += v
+					seqs := [][]int{{k2}}
+					if W <= 6 {
+						for k3 := 1; k3 <= W-k-k2+2; k3++ {
+							seqs = append(seqs, []int{k2, k3})
+						}
 					}
-					if err != nil {
-						return fail(err, fmt.Sprintf("faults at commit %d positions %d then %d", j, k, k2))
-					}
-					if regsDigest(out.final) != regsDigest(twin.final) {
-						res.fail(viol("commit-converge", "double fault at commit %d (%d then %d): final registers differ: %v", j, k, k2, diffRegs(twin.final, out.final)))
-						return res
+					for _, ks := range seqs {
+						inj := &c14Inject{commitIdx: j, k: k, ks: ks}
+						out, err := c14Run(plan, inj, twin)
+						evals++
+						for kk, v := range out.stats {
+							res.Obs[kk] += v
+						}
+						if err != nil {
+							return fail(err, fmt.Sprintf("faults at commit %d positions %d then %v", j, k, ks))
+						}
+						if regsDigest(out.final) != regsDigest(twin.final) {
+							res.fail(viol("commit-converge", "repeated faults at commit %d (%d then %v): final registers differ: %v", j, k, ks, diffRegs(twin.final, out.final)))
+							return res
+						}
 					}
 				}
 			}
@@ -823,7 +835,10 @@ const c15ClosureShards = 1
 func runC15(c *CaseCtx) *CaseResult {
 	res := &CaseResult{Stats: newStats(), Obs: map[string]int{}}
 	if c.Tier == "thorough" && c.Case == 0 {
-		return c15Closure(c, res)
+		return c15Closure(c, res, c15IDs()[1:])
+	}
+	if c.Tier == "thorough" && c.Case == 1 {
+		return c15Closure(c, res, c15IDs())
 	}
 	r := rand.New(rand.NewSource(c.CaseSeed()))
 	ids := c15IDs()
@@ -858,8 +873,8 @@ func runC15(c *CaseCtx) *CaseResult {
 
 // c15Closure explores the abstract state space of the real storage object to closure: from every reached
 // abstract state every deterministic operation is applied (the state is restored by replaying its path).
-func c15Closure(c *CaseCtx, res *CaseResult) *CaseResult {
-	ids := c15IDs()[1:] // 3 ids: two owners + temporary address
+func c15Closure(c *CaseCtx, res *CaseResult, ids []atree.SlabID) *CaseResult {
+	// ids: 3 (two owners + temporary address) or 4 (one owner twice, a second owner, temporary address)
 	var ops []ovOp
 	for i := range ids {
 		for _, code := range []int{ovStore, ovRemove, ovRetrieve, ovRetrieveIgnCache, ovRetrieveIgnNoCache} {
@@ -870,6 +885,9 @@ func c15Closure(c *CaseCtx, res *CaseResult) *CaseResult {
 		ops = append(ops, ovOp{code: code})
 	}
 	for set := uint32(1); set < 1<<uint(len(ids)); set++ {
+		if len(ids) > 3 && set&(set-1) != 0 && set != 1<<uint(len(ids))-1 {
+			continue // 4 ids: singletons and the full set only
+		}
 		ops = append(ops, ovOp{code: ovPreloadSome, set: set})
 	}
 	for k := 1; k <= 2; k++ {
@@ -916,15 +934,15 @@ func c15Closure(c *CaseCtx, res *CaseResult) *CaseResult {
 				}
 			}
 		}
-		if len(seen) > 200000 {
-			res.fail(viol("harness", "closure did not terminate within 200000 abstract states"))
+		if len(seen) > 400000 {
+			res.fail(viol("harness", "closure did not terminate within 400000 abstract states"))
 			return res
 		}
 	}
 	res.Evals = transitions
-	res.Obs["closure-abstract-states"] = len(seen)
-	res.Obs["closure-transitions"] = transitions
-	res.Obs["closure-closed"] = 1
+	res.Obs[fmt.Sprintf("closure-%d-ids-abstract-states", len(ids))] = len(seen)
+	res.Obs[fmt.Sprintf("closure-%d-ids-transitions", len(ids))] = transitions
+	res.Obs["closures-closed"] += 1
 	keys := make([]string, 0, len(seen))
 	for k := range seen {
 		keys = append(keys, k)
@@ -947,11 +965,11 @@ func init() {
 	register(&Prop{
 		ID: "C14", Level: "fault_enumeration", Run: runC14, Cases: cases(320, 1600), MinNonTrivial: 8,
 		Rule: "each case = one short seeded container history (1-3 owner addresses, arrays and maps, 4 commits) and its fault-free twin; for EVERY commit and EVERY position k of a ledger write/delete issued by that commit the history is re-executed with call k failing, " +
-			"in both modes (not applied / applied but reported failed), with immediate retry-until-success and with retry-later (continue the history, commit later), plus all pairs (second fault during the retry) for commits of <=12 writes; FastCommit and NondeterministicFastCommit, workers 1/2/8. " +
+			"in both modes (not applied / applied but reported failed), with immediate retry-until-success and with retry-later (continue the history, commit later), plus all pairs (second fault during the retry) for commits of <=12 writes and all triples for commits of <=6 writes; FastCommit and NondeterministicFastCommit, workers 1/2/8. " +
 			"Checked after each failure: error is an external error wrapping the fault; every pre-commit pending change is durably in the ledger (byte-equal to the twin) or still in the write set; pending counts agree; Retrieve returns the latest version of every slab; containers deep-equal the model; after retry registers byte-equal the twin's; final registers byte-equal the twin's. " +
 			"non-trivial = a commit with >=4 writes incl. >=1 deletion had all single positions enumerated; distinct by hash(config, operation list)",
 		Assumptions: []string{"numWorkers = 0 is outside the property's domain and not generated", "fault enumeration is complete per commit over single positions (and pairs for small commits), histories are sampled"},
-		Mandatory:   []string{"faulted-commits", "retries-to-success", "retry-later", "double-faults", "commits-fully-enumerated"},
+		Mandatory:   []string{"faulted-commits", "retries-to-success", "retry-later", "double-faults", "triple-faults", "commits-fully-enumerated"},
 	})
 	register(&Prop{
 		ID: "C15", Level: "exploration", Run: runC15, Cases: cases(320, 801), MinNonTrivial: 8,
